@@ -12,7 +12,7 @@ open Gen
 
 theorem P.run_pure {α : Type} (a : α) (s : PState) : (pure a : P α).run s = .ok (a, s) := rfl
 
-theorem P.run_bind {α β : Type} (m : P α) (f : α → P β) (s : PState) :
+theorem P.runBind {α β : Type} (m : P α) (f : α → P β) (s : PState) :
     (m >>= f).run s = (match m.run s with
       | .ok (a, s') => (f a).run s'
       | .error e => .error e) := by
@@ -52,7 +52,7 @@ theorem wp_throw {α : Type} (e : Fail) (s : PState) (Q : α → PState → Prop
 theorem wp_bind {α β : Type} (m : P α) (f : α → P β) (s : PState) (Q : β → PState → Prop)
     (E : Fail → Prop) : wp (m >>= f) s Q E ↔ wp m s (fun a s' => wp (f a) s' Q E) E := by
   unfold wp
-  rw [P.run_bind]
+  rw [P.runBind]
   cases m.run s with
   | error e => exact Iff.rfl
   | ok p => obtain ⟨a, s'⟩ := p; exact Iff.rfl
@@ -125,13 +125,13 @@ theorem substTok_run (params : List (Str × BoundValue)) (lx : Lexeme) (st : PSt
 theorem pscanWith_run (regex : Bool) (s : PState) :
     (pscanWith regex).run s = .ok (substTok s.params (rawNext regex s).1, (rawNext regex s).2) := by
   unfold pscanWith
-  rw [P.run_bind, P.run_get]
+  rw [P.runBind, P.run_get]
   simp only []
   unfold rawNext
   by_cases hn : s.n > 0
-  · simp only [hn, if_true, P.run_bind, P.run_set, P.run_pure]
+  · simp only [hn, if_true, P.runBind, P.run_set, P.run_pure]
     exact substTok_run _ _ _
-  · simp only [hn, if_false, P.run_bind, P.run_set, P.run_pure]
+  · simp only [hn, if_false, P.runBind, P.run_set, P.run_pure]
     exact substTok_run _ _ _
 
 theorem pscan_run (s : PState) :
@@ -140,16 +140,16 @@ theorem pscan_run (s : PState) :
 theorem pscanRegex_run (s : PState) :
     pscanRegex.run s = .ok (substTok s.params (rawNext true s).1, (rawNext true s).2) := pscanWith_run true s
 
-theorem unscan_run (s : PState) : unscan.run s = .ok (⟨⟩, { s with n := s.n + 1 }) := rfl
+theorem unscan_run_eq (s : PState) : unscan.run s = .ok (⟨⟩, { s with n := s.n + 1 }) := rfl
 
 theorem peekRune_run (s : PState) :
     peekRune.run s = .ok (s.r.peek, if s.r.peek = eofRune then { s with r := s.r.read.2 } else s) := by
   unfold peekRune
-  rw [P.run_bind, P.run_get]
+  rw [P.runBind, P.run_get]
   simp only []
   by_cases h : s.r.peek = eofRune
-  · simp only [h, if_true, P.run_bind, P.run_set, P.run_pure]
-  · simp only [h, if_false, P.run_bind, P.run_pure]
+  · simp only [h, if_true, P.runBind, P.run_set, P.run_pure]
+  · simp only [h, if_false, P.runBind, P.run_pure]
 
 /-- The raw token `curr()` points at: the one delivered last (if any). -/
 def lastRaw (s : PState) : Lexeme := s.buf.getD s.n zeroLexeme
@@ -196,7 +196,7 @@ theorem scanIWLoop_run_sig (fuel : Nat) (s : PState)
     (h2 : (substTok s.params (rawNext false s).1).tok ≠ .COMMENT) :
     (scanIWLoop (fuel + 1)).run s = pscan.run s := by
   simp only [scanIWLoop]
-  rw [P.run_bind, pscan_run]
+  rw [P.runBind, pscan_run]
   simp only []
   have : ¬ ((substTok s.params (rawNext false s).1).tok = .WS ∨
       (substTok s.params (rawNext false s).1).tok = .COMMENT) := by
@@ -211,7 +211,7 @@ theorem scanIW_run_sig (s : PState)
     (h2 : (substTok s.params (rawNext false s).1).tok ≠ .COMMENT) :
     scanIW.run s = pscan.run s := by
   unfold scanIW
-  rw [P.run_bind, P.run_get]
+  rw [P.runBind, P.run_get]
   simp only []
   exact scanIWLoop_run_sig _ s h1 h2
 
@@ -221,7 +221,7 @@ theorem scanIWLoop_run_skip (fuel : Nat) (s : PState)
       (substTok s.params (rawNext false s).1).tok = .COMMENT) :
     (scanIWLoop (fuel + 1)).run s = (scanIWLoop fuel).run (rawNext false s).2 := by
   simp only [scanIWLoop]
-  rw [P.run_bind, pscan_run]
+  rw [P.runBind, pscan_run]
   simp only []
   rw [P.run_ite, if_pos h]
 
